@@ -1,9 +1,13 @@
 """C19 — named args: matching text, ordered key/value pairs, one JSON object per line.
 Proof: Props/Properties_C19.v over Format/Na{Fmt,Model,Json}.v (scan of a printed template, text =
 positional formatting, pairs = zip names renderings, cache transparency, JSON line shape and
-recognition; refutations for the "}}"-after-placeholder adjacency (D11), a value holding the
-separator (D12) and a value holding a newline).
-Tie: T-corr. (a) unit level: the real BackendWorker::_process_named_args_format_message and
+recognition; refutations for a value holding the separator (D12, open) and, as statements about the
+pinned variants of the model, the "}}"-after-placeholder adjacency (D11) and a value holding a newline
+(D16); both are repaired (fixes/D11-*.diff, fixes/D16-*.diff) and the theorems are stated at full
+strength for the variant the source selects).
+Tie: T-src: tools/srcfacts.py c19_facts reads whether JsonSink appends keys/values through the newline
+escaping helper and whether the scanner takes the first '}' as the close bracket (TieC19.v, vm_compute);
+the two booleans select the model variant (esc, skip) the correspondence runs against. T-corr. (a) unit level: the real BackendWorker::_process_named_args_format_message and
 MacroMetadata::_contains_named_args against the extracted scan / contains_named; (b) end to end:
 a real Logger + recording sink + real JsonFileSink/JsonConsoleSink driven through the manual
 backend worker against the extracted `process` + `json_line`; what one replacement field renders
@@ -14,10 +18,11 @@ from vlib import Check, standard_proof_phase, correspond, ddmin, VERIF
 
 PID = 'C19'
 MANIFEST = dict(
-    text='Machine-checked (Coq): for every well-formed template over literal text, {{, }}, {name}, {name:spec} with no escaped }} right after a placeholder, the faithful model of _process_named_args_format_message returns the positional format string and the (name, spec) list (C19_scan_print); the text equals mini-fmt of the positional string = per-field renderings in order (C19_text); the structured pairs are zip(names ++ _i, per-spec renderings) in argument order when no rendering holds the 3-byte separator (C19_pairs); the template cache never changes a result (C19_cache_transparent); _contains_named_args agrees with "has a placeholder" when the first placeholder name starts with a letter (C19_contains_agrees); the JSON sink line has the fixed member sequence, the template with newlines replaced, one newline at the end when no key/value holds one (C19_json_one_line) and is recognised as the expected JSON object when no byte needs escaping (C19_json_parses). Refutations with replays on the real code: D11 (}} after a placeholder), D12 (separator bytes in a value), a newline in a value splitting the JSON line, and the adjacency weakness of _contains_named_args. libfmt is a Section oracle (per-field rendering) plus the mini-fmt field parser; both are sampled against fmtquill on every run.',
+    text='Machine-checked (Coq): for every well-formed template over literal text, {{, }}, {name}, {name:spec} the faithful model of _process_named_args_format_message returns the positional format string and the (name, spec) list (C19_scan_print); the text equals mini-fmt of the positional string = per-field renderings in order (C19_text); the structured pairs are zip(names ++ _i, per-spec renderings) in argument order when no rendering holds the 3-byte separator (C19_pairs); the template cache never changes a result (C19_cache_transparent); _contains_named_args agrees with "has a placeholder" when the first placeholder name starts with a letter (C19_contains_agrees); the JSON sink line has the fixed member sequence, the template with newlines replaced by spaces, every newline of a key or value written as backslash-n and exactly one newline, at the end, for every template and every list of pairs (C19_json_shape, C19_json_one_line); it is recognised as the expected JSON object when no byte needs escaping (C19_json_parses) and, with newlines inside keys/values, as the object holding the original keys/values (C19_json_parses_nl). The model has two variant flags (scanner: skip, sink: esc); the variant that stands for the code is read from the source on every run (TieC19: src_scan_skip = false, src_json_esc = true, the regenerated body texts equal the expected ones); the former findings D11 (}} after a placeholder mis-scanned) and D16 (a newline in a value splits the JSON line) remain as refutations about the pinned variants (C19_scan_adj_refuted, C19_json_nl_refuted, with the partial theorems that held for them). Open refutation with a replay on the real code: D12 (separator bytes in a value); also the adjacency weakness of _contains_named_args. libfmt is a Section oracle (per-field rendering) plus the mini-fmt field parser; both are sampled against fmtquill on every run.',
     design='5 C19', technique='Coq proofs over an executable model of the named-args path + extracted-model/implementation differential correspondence (unit and end-to-end) + direct property monitors')
 TRUSTED = [
-    'Coq 8.16.1 kernel (coqc, vm_compute for the refutation/non-vacuity examples; no native_compute)',
+    'Coq 8.16.1 kernel (coqc, vm_compute for the refutation/non-vacuity examples and the T-src tie; no native_compute)',
+    'T-src: tools/srcfacts.py c19_facts (clang AST skeletons + comment-stripped, white-space-normalised body text of JsonSink::generate_json_message / _append_escaping_newlines and BackendWorker::_process_named_args_format_message); that the Gallina variants esc = true / skip = false are faithful to those texts is by inspection (and sampled by the correspondence on every run)',
     'axioms: none (every theorem Closed under the global context)',
     'Section premises standing for libfmt: apply_spec (what one replacement field renders to) is an arbitrary function; fmtquill::vformat_to = the mini-fmt field parser (literal, {{, }}, {}, {:spec}, auto indexing) + apply_spec per field. Both are sampled against the real fmtquill on every run (oracle table from fmtquill::vformat, end-to-end text/values through the real backend)',
     'inputs of the JSON line that other code produces (std::to_string(timestamp), file name, line, thread id, logger name, level description) are arbitrary byte strings in the theorems',
@@ -182,11 +187,20 @@ def plain(s):
     return all(32 <= c < 128 and c not in (34, 92) for c in s)
 
 
+def esc_nl(x):
+    """JsonSink::_append_escaping_newlines"""
+    return x.replace(b'\n', b'\\n')
+
+
+def plain_or_nl(s):
+    return plain(s.replace(b'\n', b''))
+
+
 def expected_json(st, file, logger, pairs):
     o = b'{"timestamp":"%d","file_name":"%s","line":"%d","thread_id":"0","logger":"%s","log_level":"%s","message":"%s"' % (
         st['ts'], file, st['line'], logger, LEVELS[st['level']].encode(), st['tpl'].replace(b'\n', b' '))
     for k, v in pairs or []:
-        o += b',"' + k + b'":"' + v + b'"'
+        o += b',"' + esc_nl(k) + b'":"' + esc_nl(v) + b'"'
     return o + b'}\n'
 
 
@@ -255,8 +269,9 @@ def failures(case_line, impl_line):
             pj = ep
         else:
             pj = []
-        fields = [c['file'], c['logger'], st['tpl'].replace(b'\n', b' ')] + [x for kv in pj for x in kv]
-        if all(plain(x) for x in fields):
+        fields = [c['file'], c['logger'], st['tpl'].replace(b'\n', b' ')]
+        if all(plain(x) for x in fields) and all(plain_or_nl(x) for kv in pj for x in kv):
+            # a newline inside a key or value arrives as the escape \n: the parsed object holds the original text
             exp = [('timestamp', str(st['ts'])), ('file_name', c['file'].decode()), ('line', str(st['line'])), ('thread_id', '0'),
                    ('logger', c['logger'].decode()), ('log_level', LEVELS[st['level']]), ('message', st['tpl'].replace(b'\n', b' ').decode())]
             exp += [(k.decode(), v.decode()) for k, v in pj]
@@ -277,21 +292,27 @@ def monitor(case_line, impl_line):
 
 # ------------------------------------------------------------------------------------------------
 # known findings: a failure is explained only by the specific input shape of an open entry
-def explain(case_line, fail):
+def explain(case_line, fail, open_ids=None):
+    """the finding whose input shape explains this failing clause; when several shapes are present the first one
+    that is still open (open_ids: ids of the open entries; None = any)"""
     i, clause, _ = fail
+    ok = lambda e: open_ids is None or KNOWN_ID[e] in open_ids
     c = parse_case(case_line)
     if c['kind'] == 'scan':
         toks = tokenize(c['tpl'])
-        if toks and d11_shape(toks) and clause == 'scan': return 'D11'
+        if toks and d11_shape(toks) and clause == 'scan' and ok('D11'): return 'D11'
         return None
     st = c['stmts'][i]; toks = tokenize(st['tpl'])
-    if toks and d11_shape(toks) and clause in ('text', 'pairs', 'json-object'): return 'D11'
     if toks is None: return None
-    hs = [k for k in toks if k[0] == 'H']; tb = {(sp, idx): (ok, o) for sp, idx, ok, o in st['table']}
+    cand = []
+    if d11_shape(toks) and clause in ('text', 'pairs', 'json-object'): cand.append('D11')
+    hs = [k for k in toks if k[0] == 'H']; tb = {(sp, idx): (ok_, o) for sp, idx, ok_, o in st['table']}
     need = [(spec_text(k[2]), j) for j, k in enumerate(hs)] + [(b'', j) for j in range(len(hs), len(st['args']))]
     rend = [tb[q][1] for q in need if q in tb and tb[q][0]]
-    if clause in ('pairs', 'json-object') and any(SEP in r for r in rend): return 'D12'
-    if clause == 'json-one-line' and (any(b'\n' in r for r in rend) or any(b'\n' in k[1] for k in hs)): return 'NL'
+    if clause in ('pairs', 'json-object') and any(SEP in r for r in rend): cand.append('D12')
+    if clause == 'json-one-line' and (any(b'\n' in r for r in rend) or any(b'\n' in k[1] for k in hs)): cand.append('NL')
+    for e in cand:
+        if ok(e): return e
     return None
 
 
@@ -306,8 +327,15 @@ def shapes(case_line):
         if toks and d11_shape(toks): out.add('D11')
         rend = [o for _, _, ok, o in st['table'] if ok]
         if any(SEP in r for r in rend): out.add('D12')
-        if any(b'\n' in r for r in rend): out.add('NL')
+        if any(b'\n' in r for r in rend) or (toks and any(k[0] == 'H' and b'\n' in k[1] for k in toks)): out.add('NL')
     return out
+
+
+def shape_counts(cases):
+    n = {}
+    for c in cases:
+        for x in shapes(c): n[KNOWN_ID[x]] = n.get(KNOWN_ID[x], 0) + 1
+    return n
 
 
 def open_findings():
@@ -321,6 +349,37 @@ KNOWN_ID = {'D11': 'D11', 'D12': 'D12', 'NL': 'D16-json-newline'}
 
 _MODEL_LINES = {}      # case line -> model observation (filled by run / shrink)
 
+# the model variant that stands for the code (T-src facts c19_json_escapes_newlines / c19_scan_first_close_bracket,
+# proved in TieC19.v): esc = 1 <=> the sink escapes newlines of keys/values; skip = 1 <=> the scanner steps over a
+# "}}" that directly follows a close bracket (the pinned scanner, D11)
+VARIANT = {'esc': 0, 'skip': 1}
+
+
+def read_variant(ck=None):
+    from props.c01 import srcfacts_values
+    f = srcfacts_values()
+    VARIANT['esc'] = 1 if f.get('c19_json_escapes_newlines') == 'true' else 0
+    VARIANT['skip'] = 0 if f.get('c19_scan_first_close_bracket') == 'true' else 1
+    if ck is not None:
+        ck.tie.append({'T-src facts': {'c19_json_escapes_newlines': f.get('c19_json_escapes_newlines'),
+                                       'c19_scan_first_close_bracket': f.get('c19_scan_first_close_bracket')},
+                       'model variant for the correspondence': 'esc=%(esc)d skip=%(skip)d' % VARIANT,
+                       'lemmas': 'TieC19.src_json_esc_true, TieC19.src_scan_skip_false, TieC19.c19_skeletons_ok (vm_compute)'})
+    return VARIANT
+
+
+def mline(case_line):
+    """the model runner's line for a case: the same integers behind the variant flags (the harness reads the case as it is)"""
+    t = case_line.split(' ', 1); rest = t[1] if len(t) > 1 else ''
+    if t[0] == 'na': return 'nav %d %d %s' % (VARIANT['esc'], VARIANT['skip'], rest)
+    if t[0] == 'nascan': return 'nascanv %d %s' % (VARIANT['skip'], rest)
+    if t[0] == 'naneeds': return 'naneedsv %d %s' % (VARIANT['skip'], rest)
+    return case_line
+
+
+def run_model(ck, mexe, cases):
+    return ck.run_model(mexe, [mline(c) for c in cases])
+
 
 def known_match(case_line, impl_line, msg):
     """text for the KNOWN-FINDING line when every failing clause is explained by the input shape of an
@@ -330,7 +389,7 @@ def known_match(case_line, impl_line, msg):
     if _MODEL_LINES.get(case_line, impl_line) != impl_line: return None
     of = open_findings(); ids = []
     for f in fs:
-        e = explain(case_line, f)
+        e = explain(case_line, f, set(of))
         if e is None or KNOWN_ID[e] not in of: return None      # some failure is not a known one
         if KNOWN_ID[e] not in ids: ids.append(KNOWN_ID[e])
     f = of[ids[0]]
@@ -357,7 +416,7 @@ def gen_value(rng, hard=False):
         return (3, rng.choice([65, 97, 48, 32, 126, 34, 1, 2, 3, 200, 92]))
     pool = [b'', b'abc', b'hello world', b'x', b'with "quote"', b'back\\slash', b'\x01', b'a\x01b', b'\x01\x02', b'x\x01\x02y',
             b'\x02\x03', b'\x01\x02\x01\x02', b'\x03\x02\x01', b'{}', b'{name}', b'}}', b'caf\xc3\xa9', b'\xff\x80', b'tab\there', b'1\x012\x023',
-            b'\x01\x01\x02', b'ends with \x01\x02', b'\x03 starts', b'_0', bytes(rng.choice(IDENT + b' 0123456789.,;') for _ in range(rng.randint(1, 12)))]
+            b'\x01\x01\x02', b'ends with \x01\x02', b'\x03 starts', b'_0', b'a\nb', b'\n', b'line1\nline2\n', b'\n\nx', b'q"\n\\n', bytes(rng.choice(IDENT + b' 0123456789.,;') for _ in range(rng.randint(1, 12)))]
     return (2, rng.choice(pool))
 
 
@@ -374,7 +433,7 @@ def gen_text(rng):
 
 def gen_tpl(rng, nholes, args, badspec=0.0, d11=False):
     """token list with nholes placeholders; args[i] (if present) decides the spec family of hole i.
-    Never Hole immediately followed by '}}' unless d11 is requested."""
+    A Hole immediately followed by '}}' (the D11 shape) occurs by chance; d11=True forces one."""
     toks = []; h = 0
     def filler():
         k = rng.random()
@@ -391,7 +450,7 @@ def gen_tpl(rng, nholes, args, badspec=0.0, d11=False):
     names = []
     for h in range(nholes + 1):
         f = filler()
-        if toks and toks[-1][0] == 'H' and f and f[0][0] == 'R':
+        if toks and toks[-1][0] == 'H' and f and f[0][0] == 'R' and rng.random() < 0.4:
             f = [('T', b' ')] + f
         if f and toks and toks[-1][0] == 'T' and f[0][0] == 'T':
             toks[-1] = ('T', toks[-1][1] + f[0][1]); f = f[1:]
@@ -437,12 +496,11 @@ def gen_structured(rng, n):
 
 
 def clean_value(rng):
-    """values of the structured stream: anything except the known-finding shapes (a string holding the
-    three separator bytes in a row, or a newline)"""
+    """values of the structured stream: anything except the open-finding shape (a string holding the
+    three separator bytes in a row, D12); strings holding newlines are in"""
     while True:
         v = gen_value(rng)
-        if v[0] == 2 and (SEP in v[1] or b'\n' in v[1]): continue
-        if v[0] == 3 and v[1] == 10: continue
+        if v[0] == 2 and SEP in v[1]: continue
         return v
 
 
@@ -494,12 +552,11 @@ def gen_logj(rng, n):
 
 
 def gen_adjacency(rng):
-    """every sequence of up to 4 token kinds (text, {{, }}, placeholder) except placeholder-}} : unit and e2e"""
+    """every sequence of up to 4 token kinds (text, {{, }}, placeholder), placeholder-}} included: unit and e2e"""
     import itertools
     scan = []; e2e = []
     for L in (1, 2, 3, 4):
         for kinds in itertools.product('TLRH', repeat=L):
-            if any(a == 'H' and b == 'R' for a, b in zip(kinds, kinds[1:])): continue
             if any(a == 'T' and b == 'T' for a, b in zip(kinds, kinds[1:])): continue
             toks = []; nh = 0
             for k in kinds:
@@ -525,8 +582,6 @@ def gen_scan_random(rng, n):
             cases.append({'kind': 'scan', 'tpl': t, 'stream': 'scan-grammar'})
         else:
             t = bytes(rng.choice(b'{{{}}}::ab1_ \n') for _ in range(rng.randint(0, 14)))
-            toks = tokenize(t)
-            if toks is not None and d11_shape(toks): continue        # kept for the known-finding stream
             cases.append({'kind': 'scan', 'tpl': t, 'stream': 'scan-raw'})
     return cases
 
@@ -545,8 +600,8 @@ def gen_edge(rng, n):
 
 
 def gen_known(rng, n):
-    """dedicated stream for the open findings: '}}' right after a placeholder (D11), a value holding
-    the separator bytes (D12), a value holding a newline (D16)"""
+    """dedicated stream for the shapes of the findings: '}}' right after a placeholder (D11, repaired), a value
+    holding the separator bytes (D12, open), a value or a placeholder name holding a newline (D16, repaired)"""
     cases = []
     while len(cases) < n:
         kind = rng.choice(['D11', 'D11s', 'D12', 'NL'])
@@ -562,6 +617,9 @@ def gen_known(rng, n):
             args[j] = (2, bad)
             toks = gen_tpl(rng, nh, args)
             toks = [(('H', k[1], rng.choice([None, b'', b'>12'])) if k[0] == 'H' else k) for k in toks]
+            if kind == 'NL' and rng.random() < 0.3:
+                hs = [i for i, k in enumerate(toks) if k[0] == 'H']; i = rng.choice(hs)
+                toks[i] = ('H', rng.choice([b'k\ney', b'nl\n', b'a\n\nb']), toks[i][2])
             t = print_toks(toks)
         cases.append({'kind': 'e2e', 'file': FILES[0], 'logger': LOGGERS[0], 'stmts': [new_stmt(rng, t, args)], 'stream': 'known'})
     return cases
@@ -588,7 +646,7 @@ def fill_tables(ck, mexe, iexe, cases):
         o = [len(c['stmts'])]
         for st in c['stmts']: o += S(st['tpl']) + [len(st['args'])]
         lines.append('naneeds ' + ' '.join(map(str, o)))
-    res = ck.run_model(mexe, lines)
+    res = run_model(ck, mexe, lines)
     reqs = []
     for c, l in zip(e2e, res):
         r = Rd(list(map(int, l.split()))); o = []; per = []
@@ -641,6 +699,7 @@ def nontrivial(c):
 def run(tier):
     ck = Check(PID, tier)
     broken = standard_proof_phase(ck, 'Properties_C19')
+    read_variant(ck)
     mexe, err = ck.build_modelrun()
     if not mexe:
         ck.violation('no-failing-input-found', 'model extraction/build failed: ' + err[-400:]); return ck.finish(trusted=TRUSTED)
@@ -662,7 +721,7 @@ def run(tier):
     cases = corp + [enc_case(c) for c in gen]
     streams = {}
     for c in gen: streams[c['stream']] = streams.get(c['stream'], 0) + 1
-    ml = ck.run_model(mexe, cases)
+    ml = run_model(ck, mexe, cases)
     il = ck.run_impl(iexe, cases, timeout=900 if not q else 300)
 
     # an open finding that has been repaired: on its input shape the implementation now satisfies the
@@ -683,15 +742,15 @@ def run(tier):
         if c['kind'] == 'scan':
             def fails_b(bs):
                 l = enc_case({'kind': 'scan', 'tpl': bytes(bs)}); i = ck.run_impl(iexe, [l])[0]
-                _MODEL_LINES[l] = ck.run_model(mexe, [l])[0]
+                _MODEL_LINES[l] = run_model(ck, mexe, [l])[0]
                 if mode == 'monitor': return monitor(l, i) is not None and known_match(l, i, '') is None
-                return ck.run_model(mexe, [l])[0] != i
+                return _MODEL_LINES[l] != i
             return enc_case({'kind': 'scan', 'tpl': bytes(ddmin(list(c['tpl']), fails_b))})
         def fails(sts):
             l = enc_case(dict(c, stmts=sts)); i = ck.run_impl(iexe, [l])[0]
-            _MODEL_LINES[l] = ck.run_model(mexe, [l])[0]
+            _MODEL_LINES[l] = run_model(ck, mexe, [l])[0]
             if mode == 'monitor': return monitor(l, i) is not None and known_match(l, i, '') is None
-            return ck.run_model(mexe, [l])[0] != i
+            return _MODEL_LINES[l] != i
         sts = ddmin(c['stmts'], fails) if len(c['stmts']) > 1 else c['stmts']
         return enc_case(dict(c, stmts=sts))
 
@@ -705,15 +764,17 @@ def run(tier):
     samples = [cases[len(corp)]] + [enc_case(c) for c in gen if c['stream'] == 'structured'][:1] + [enc_case(c) for c in gen if c['stream'] == 'cache'][:1]
     samples = [s if len(s) < 1500 else s[:1500] + ' ...' for s in samples]
     return ck.finish(trusted=TRUSTED, samples=samples,
-                     rule='cases are integer lines (strings length-prefixed): "nascan <tpl>" runs the real _process_named_args_format_message/_contains_named_args; "na <file> <logger> n stmt*" logs n statements (ts level line lvl tpl args oracle-table) through a real Logger + recording sink + JsonFileSink + JsonConsoleSink on the manual backend worker. Streams: adjacency (all <=4-token sequences of text/{{/}}/placeholder), scan-grammar, scan-raw, structured (0-18 placeholders, exact/surplus/missing arguments, ints/doubles/strings/chars, byte 1 / bytes 1 2 / quotes / braces / high bytes), cache (same multiset of look-alike templates in two orders), logj, edge. The structured streams never contain the two known-finding shapes ("}}" directly after a placeholder; a value holding the bytes 1 2 3 in a row) nor a newline inside a value; those are exercised only in the dedicated "known" stream and the corpus. non-trivial = unit: >=1 placeholder and >=1 escaped brace; end to end: a statement with >=2 arguments and a spec, or a template used twice; distinct by case text',
+                     rule='cases are integer lines (strings length-prefixed): "nascan <tpl>" runs the real _process_named_args_format_message/_contains_named_args; "na <file> <logger> n stmt*" logs n statements (ts level line lvl tpl args oracle-table) through a real Logger + recording sink + JsonFileSink + JsonConsoleSink on the manual backend worker. The model runner is given the same integers behind the variant flags read from the source (nav <esc> <skip> ..., nascanv <skip> ...). Streams: adjacency (all <=4-token sequences of text/{{/}}/placeholder, "}}" directly after a placeholder included), scan-grammar, scan-raw, structured (0-18 placeholders, exact/surplus/missing arguments, ints/doubles/strings/chars, byte 1 / bytes 1 2 / quotes / braces / high bytes / newlines inside string values, "}}" directly after a placeholder by chance), cache (same multiset of look-alike templates in two orders), logj, edge, known ("}}" forced after a placeholder; newline inside a value or a placeholder name; a value holding the bytes 1 2 3 in a row). The open-finding shape (a value holding the bytes 1 2 3 in a row, D12) is exercised only in the dedicated "known" stream and the corpus. non-trivial = unit: >=1 placeholder and >=1 escaped brace; end to end: a statement with >=2 arguments and a spec, or a template used twice; distinct by case text',
                      evaluations=len(cases), distinct_nontrivial=nt, traces=len(cases) - len(dis) - len(mon),
                      extra_cov={'disagreements': len(dis), 'monitor_failures': len(mon), 'monitor_failures_known': len(mon) - sum(1 for x in mon if known_match(x[0], x[2], x[3]) is None),
-                                'corpus_cases': len(corp), 'streams': streams, 'statements_end_to_end': nst})
+                                'corpus_cases': len(corp), 'streams': streams, 'statements_end_to_end': nst,
+                                'model_variant': dict(VARIANT), 'cases_with_finding_shapes': shape_counts(cases)})
 
 
 def replay(path):
     d = json.load(open(path))
     ck = Check(PID, 'quick')
+    ck.srcfacts(); read_variant()
     mexe, _ = ck.build_modelrun(); iexe, _ = ck.build_harness('na', ['na.cpp'])
     c = d.get('case')
     if not c:
@@ -723,7 +784,8 @@ def replay(path):
     if pc['kind'] == 'scan': print('template:', pc['tpl'])
     else:
         for st in pc['stmts']: print('statement:', st['tpl'], st['args'])
-    m = ck.run_model(mexe, [c])[0]; i = ck.run_impl(iexe, [c])[0]
+    m = run_model(ck, mexe, [c])[0]; i = ck.run_impl(iexe, [c])[0]
+    print('model variant (from the source): esc=%(esc)d skip=%(skip)d' % VARIANT)
     print('model:', m); print('impl :', i)
     try:
         print('impl decoded :', parse_scan_obs(i) if pc['kind'] == 'scan' else parse_e2e_obs(i))
